@@ -5,20 +5,20 @@ let parse (s : string) : t =
   let s = SS.map (fun c -> if c = '_' then ' ' else c) s in
   let n = SS.length s in
   let pos = ref 0 in
-  let rec skip () = if !pos < n && s.[!pos] = ' ' then (incr pos; skip ()) in
+  let rec skip () = if !pos < n && (SS.get s (!pos)) = ' ' then (incr pos; skip ()) in
   let rec item () =
     skip ();
     if !pos >= n then failwith "sexp: eof"
-    else if s.[!pos] = '(' then begin
+    else if (SS.get s (!pos)) = '(' then begin
       incr pos;
       let rec items acc = skip ();
         if !pos >= n then failwith "sexp: unclosed"
-        else if s.[!pos] = ')' then (incr pos; L.rev acc)
+        else if (SS.get s (!pos)) = ')' then (incr pos; L.rev acc)
         else items (item () :: acc) in
       Lst (items [])
     end else begin
       let st = !pos in
-      while !pos < n && s.[!pos] <> ' ' && s.[!pos] <> '(' && s.[!pos] <> ')' do incr pos done;
+      while !pos < n && (SS.get s (!pos)) <> ' ' && (SS.get s (!pos)) <> '(' && (SS.get s (!pos)) <> ')' do incr pos done;
       A (SS.sub s st (!pos - st))
     end in
   item ()
